@@ -1194,8 +1194,8 @@ func genAPIMode(r *rng, full bool) string {
 }
 
 // family `specdiff`: the implementation model (Driver.step) against the
-// reference model (SpecDb.s_step) on histories without sessions, bulk writes
-// and maintenance calls — evaluated entirely on the Coq side; the expected
+// reference model (SpecDb.s_step) on histories without sessions and
+// maintenance calls — evaluated entirely on the Coq side; the expected
 // observable is the constant "OK".  It tests the refinement statement of C01.
 func genSpecdiff(r *rng) string {
 	g := &apiGen{r: r}
@@ -1204,7 +1204,7 @@ func genSpecdiff(r *rng) string {
 	for len(parts) < n+1 {
 		c := g.call()
 		g.openSess = 0
-		if strings.HasPrefix(c, "(bulk") || strings.HasPrefix(c, "(trim") || strings.HasPrefix(c, "(start") ||
+		if strings.HasPrefix(c, "(trim") || strings.HasPrefix(c, "(start") ||
 			strings.HasPrefix(c, "(commit") || strings.HasPrefix(c, "(abort") || strings.HasPrefix(c, "(end") {
 			continue
 		}
